@@ -64,6 +64,10 @@ def run(rep, tier):
         run_enum(rep, prog, K)
     with rep.part('enum serialize'):
         run_enum_serialize(rep, prog)
+    with rep.part('enum value delivery'):
+        run_variant_delivery(rep, prog, K)
+        for fail in battery_enum_deliveries():
+            rep.violation('C10:native-twin:delivery', f'native twin: {fail}', {'native': fail})
     from checks import c02
     with rep.part('union unknown variants'):
         c02.run_union(rep, prog, 'C10')
@@ -81,6 +85,60 @@ def run(rep, tier):
     rep.assumptions += ['serde-derive expansions of the generated enum (untagged Unknown arm, Content buffering) are not executed: the enum is entered through its generated FromStr/FromPlain (which the derive-free paths share with deserialization via Variant)',
                         'union documents arrive as key/value events; payloads are abstract tokens (their losslessness is C13)']
     rep.outside += [f'names longer than {K} bytes', 'definitions outside the IR family']
+
+
+def run_variant_delivery(rep, prog, K):
+    """the string behind `Unknown` (conjure_object::private::Variant) deserializes the same way however the format hands the string
+    over: borrowed from the input (from_str on escape-free text), transient (readers, escapes) or owned (Any, buffered content)"""
+    from mirsym.harness import find_fns
+    fns = [k for k in find_fns(prog, 'deserialize', inpath='conjure_object::private::<impl at') if 'Variant' in impl_text_of(prog, k) and 'Deserialize' in impl_text_of(prog, k)
+           and '{closure' not in k and '::deserialize::' not in k.split('>::deserialize')[-1]]
+    fns = [k for k in fns if k.endswith('::deserialize')]
+    if len(fns) != 1:
+        raise Inconclusive(f'C10 harness: <Variant as Deserialize>::deserialize not found uniquely: {fns}')
+    outcomes = {}
+    it = Interp(prog, MODELS + models_serde.MODELS + models_std.MODELS, models_serde.TMODELS, unwind=K + 6)
+    dec = Decider(rep, it)
+    st0 = St()
+    ptr, s = sym_str(st0, 's', K)
+    wellformed = enum_grammar(s)
+    for mode in ('borrowed', 'transient', 'owned'):
+        np_ = 0
+        for s2, rv in it.run(fns[0], [Agg('StrDeliver', (s, mode))], st0.fork(), {'D': ('path', 'StrDeliver', ())}):
+            np_ += 1
+            rep.states += 1
+            if is_abnormal(rv):
+                rep.structural(f'C10:variant-delivery:{mode}', f'<Variant as Deserialize> on a {mode} string: {rv!r:.100}', {'mode': mode}, battery_enum_deliveries)
+                continue
+            is_ok = it.variant_of(rv, 'Ok')
+            m = dec.decide(f'variant:{mode}:path{np_}:accepted<=>well-formed-name', s2, is_ok != wellformed, bytes=K)
+            if m is not None:
+                txt = model_bytes(m, s)
+                fails = battery_enum_deliveries([txt])
+                rep.replayed += 1
+                if fails:
+                    rep.violation(f'C10:variant-delivery:{mode}', f'an unlisted enum value {txt!r} handed over as a {mode} string is '
+                                  f'{"accepted" if z3.is_true(m.eval(is_ok, True)) else "rejected"} although the name is {"" if z3.is_true(m.eval(wellformed, True)) else "not "}well formed; native: {fails[0]}',
+                                  {'op': {'op': 'gen_enum', 'text_hex': txt.hex()}, 'mode': mode})
+                else:
+                    rep.inconc(f'model mismatch C10 variant delivery {mode} {txt!r}: the native entry paths agree')
+        if not np_:
+            rep.inconc(f'vacuity: Variant deserialize ({mode}) has no outcome')
+    finish_engine(rep, it)
+
+
+def impl_text_of(prog, fname):
+    for info in prog.impls:
+        for ms in info.methods.values():
+            if fname in ms:
+                return info.text
+    return ''
+
+
+def battery_enum_deliveries(texts=None):
+    texts = texts or [b'X9', b'ONE', b'HTTP_2', b'A_B_C', b'Q']
+    ops = [{'op': 'gen_enum', 'text_hex': t.hex()} for t in texts]
+    return [f'{t!r}: {r}' for t, r in zip(texts, replay(ops)) if not r.get('consistent')]
 
 
 def run_enum(rep, prog, K):
